@@ -158,6 +158,11 @@ class ConvSim(WorldBase):
                 for _ in range(e.randint(0, 3)):
                     evs.append(self._perturb(e))
                 evs.append(["rand", dict(a, form=g.choice(["fiber", "tensor"]))])
+            if g.random() < 0.4:
+                # the same request with another empty value: its own key (it is another request), its own default
+                d2 = g.choice([-1, 7])
+                for rep in range(2):
+                    evs.append(["rand", dict(a, form=g.choice(["fiber", "tensor"]), default=d2, key=f"k{case}d")])
         return evs
 
     def _plan_yaml(self, g):
@@ -442,6 +447,21 @@ class ConvSim(WorldBase):
             return {"status": "exc"}
         enc = ob.enc_fiber(root)
         cont = ob.content(root, a["default"])
+        # the empty value asked for is the empty value the result has
+        leaf = root
+        for _ in range(len(shape) - 1):
+            leaf = leaf.payloads[0] if isinstance(leaf, Fiber) and leaf.payloads else None
+        if isinstance(leaf, Fiber):
+            try:
+                gotd = Payload.get(leaf.getDefault())
+            except Exception:
+                gotd = "?"
+            if gotd != a["default"]:
+                self.V("C13", "C13.random-reproducible", "rand",
+                       f"fromRandom(shape={shape}, seed={a['seed']}, default={a['default']}) gives a result whose leaf "
+                       f"default is {gotd!r}")
+        if any(v == a["default"] for v in cont.values()):
+            pass
         for pt in cont:
             if any(not (0 <= c < s) for c, s in zip(pt, shape)):
                 self.V("C13", "C13.random-inside-shape", "rand", f"fromRandom(shape={shape}) produced point {pt}")
